@@ -65,7 +65,15 @@ func ParseStyledString(s string) []Cell {
 func EncodeCells(cells []Cell) string {
 	bldr := &strings.Builder{}
 	cursor := Style{}
-	for _, next := range cells {
+	for i, next := range cells {
+		if i > 0 && joinsCluster(cells[i-1].Grapheme, next.Grapheme) {
+			// Written back to back the two texts would be read as one
+			// grapheme cluster, that is, as one cell. A control
+			// sequence between them keeps them apart: start the style
+			// over
+			bldr.WriteString(sgrReset)
+			cursor = Style{Hyperlink: cursor.Hyperlink, HyperlinkParams: cursor.HyperlinkParams}
+		}
 		if cursor.Foreground != next.Foreground {
 			fg := next.Foreground
 			ps := fg.Params()
